@@ -43,6 +43,7 @@ ASSUMPTIONS = ["time_threshold, logging, njev/nhev not modelled (nfev is compare
                "are non-finite (mixed-norm boundary case of the sub-problem solver) are outside the rational model"]
 
 XTOL = 1e-6
+_QUICK = [False]
 MARGIN = 1e-7
 _J = {}
 
@@ -467,7 +468,9 @@ def oracle(case):
         if first is not None:
             sk = sched[first]
             kw1 = dict(_kwargs(case, pinned), maxiter=1, miniter=None)
-            for variant in ("eager", "static"):
+            # quick tier: the compiled variant is asked again only when that costs no extra compilation (maxiter == 1);
+            # compiled = eager is checked on the full run below in any case
+            for variant in (("eager", "static") if (not _QUICK[0] or case.get("maxiter") == 1) else ("eager",)):
                 o = _run_real(case, variant, kw1, pinned)
                 if "error" in o:
                     return (f"{variant} Newton-CG fails ({o['error']}) at a negative-curvature start",
@@ -968,6 +971,7 @@ def _check(ctx, cases):
 
 
 def run(ctx):
+    _QUICK[0] = bool(ctx.quick)
     cases = _load_corpus()
     for _ in range(ctx.n(6, 50)):
         cases.append(_gen_case(ctx.rng, ctx.quick, modelled=True))
